@@ -267,7 +267,7 @@ class ADMM(Optimizer):
 
         sum = 0.0
         for rhoi, Ci, zi in zip(self.rho_list, self.C_list, self.z_list):
-            sum += rhoi * norm(Ci(self.x) - zi) ** 2
+            sum += rhoi * norm(Ci(x) - zi) ** 2
         return snp.sqrt(sum)
 
     def norm_dual_residual(self) -> float:
